@@ -409,3 +409,14 @@ Definition http_server_recv_lim (lim max declared : Z) (actual : list byte) : ht
 
 Definition http_server_recv_limited (max declared : Z) (actual : list byte) : http_result :=
   http_server_recv_lim (max + 1) max declared actual.
+
+(* ================================================================================ *)
+(* Ownership of the request buffer.  A call whose context ends while its request is still
+   queued or being written returns to its caller; the write happens later.  The header was
+   computed from the request as submitted ([b0]); the body bytes are read when the write
+   finally happens: from the transport's own copy, or - if the transport kept the caller's
+   slice - from that storage as it is THEN ([b1]: same storage, hence the same length). *)
+Inductive ownership := Copies | Aliases.
+
+Definition abandoned_wire (o : ownership) (index : Z) (b0 b1 : list byte) : list byte :=
+  sock_make_header (Z.of_nat (length b0)) index ++ match o with Copies => b0 | Aliases => b1 end.
